@@ -502,6 +502,19 @@ def _owner_location(tag):
             "setup_suite": ("suite_setup", what), "teardown_suite": ("suite_teardown", what)}.get(kind)
 
 
+def _may_run_in(owner_tag, loc_kind, loc_path, fx_scopes):
+    """Can the code named by owner_tag ('body:s1.t2#0', 'fxteardown:f3', ...) execute in the location (loc_kind, loc_path)?"""
+    want = _owner_location(owner_tag)
+    if want is not None:
+        return want == (loc_kind, loc_path)
+    kind, rest = owner_tag.split(":", 1)
+    scope = fx_scopes.get(rest.split("#")[0])
+    if scope is None:
+        return True                      # unknown owner: no claim
+    return loc_kind in {"test": ("test",), "suite": ("suite_setup", "suite_teardown"),
+                        "session": ("session_setup", "session_teardown")}.get(scope, ())
+
+
 def _tag_of(text):
     m = _re.match(r"^(.*)\|(?:step)?(\d+)$", text or "")
     return (m.group(1), int(m.group(2))) if m else None
@@ -538,6 +551,7 @@ def c06_oracle(case, r):
     if (r.get("outcome") or ["?"])[0] != "returned" or not r.get("report"):
         return hits
     exp_steps = expected_steps(case.get("scheduled_project") or case["project"])
+    fx_scopes = {f["name"]: f["scope"] for f in (case.get("scheduled_project") or case["project"]).get("fixtures", [])}
     # 1. events: the location of every user log is the location of the code that emitted it; threads are not confused
     thread_of_tag = {}
     for ev in r.get("events") or []:
@@ -558,8 +572,13 @@ def c06_oracle(case, r):
             hits.append(("log-with-wrong-thread", "logs of %s carry two different thread ids" % tg[0]))
         step = d.get("step")
         stg = _tag_of(step)
-        if stg and stg[0] != tg[0] and "#" in tg[0] and stg[0].split("#")[0] != tg[0].split("#")[0]:
-            hits.append(("log-in-foreign-step", "a log of %s is filed in a step set by %s" % (tg[0], stg[0])))
+        # the step a log lies in was set by code that ran in the same location (the same test / setup / teardown phase): the
+        # emitting code itself, or code that ran before it on the same thread (a fixture teardown before teardown_test ...), or
+        # the creator of the thread (lcc.Thread inherits the creator's current step).  A step set by code that cannot run in
+        # this location (another test's body or hooks, a fixture of another scope) is a leak.
+        if stg and stg[0] != tg[0] and not _may_run_in(stg[0], LOC_NAMES[loc[1]], loc[2], fx_scopes):
+            hits.append(("log-in-foreign-step", "a log of %s, emitted in %s %s, is filed in a step set by %s" % (
+                tg[0], LOC_NAMES[loc[1]], loc[2], stg[0])))
     # 2. report: every log lies in the result of its owner, in emission order per thread
     results = _results_of_report(r["report"])
     for key, res in results.items():
